@@ -80,8 +80,9 @@ func regShow(es []regEntry) string {
 }
 
 type regEvents struct {
-	mu sync.Mutex
-	ev []string
+	mu   sync.Mutex
+	ev   []string
+	keys []string // subscription-change events with what they name: "+p:ce/cf->se/sf" / "-…" (see registry_data_test.go)
 }
 
 func (r *regEvents) HandleEvent(p api.EventPayload) {
@@ -108,6 +109,9 @@ func (r *regEvents) HandleEvent(p api.EventPayload) {
 	}
 	r.mu.Lock()
 	r.ev = append(r.ev, s)
+	if p.EventType == api.EventTypeSubscriptionChange {
+		r.keys = append(r.keys, regEventKey(p))
+	}
 	r.mu.Unlock()
 }
 
@@ -690,6 +694,7 @@ func runRegHistoryTd(r *h.Report, d *h.Driver, ev *regEvents, base int, ops []st
 			}
 		}
 		preS, preB := w.snapshot()
+		w.ev.takeKeys()
 		w.out = nil
 		w.panicky = ""
 		if w.td != nil {
@@ -1346,6 +1351,17 @@ func runRegHistoryTd(r *h.Report, d *h.Driver, ev *regEvents, base int, ops []st
 			if impl != want {
 				r.Mismatch(done, impl, want, "registry op "+op)
 				return false
+			}
+			if (f[0] == "sub" || f[0] == "unsub") && w.td == nil {
+				// the subscription-change events of the call, with the device, client and server feature each names,
+				// against Spine.RegEv.callEvents
+				w.settle()
+				ie, me := regList(w.ev.takeKeys()), d.Ask("events")
+				if ie != me {
+					r.Mismatch(done, ie, me, "subscription-change events of "+op)
+					return false
+				}
+				r.Eval("events:"+f[0], "")
 			}
 			if (f[0] == "subs" || f[0] == "binds") && wireShown != "" && w.td == nil {
 				// the reply as sent over the wire against Spine.RegWire (ids by order of first appearance, as above)
